@@ -50,7 +50,9 @@ def deformer_case(rng, n, maxitems, maxbones):
     perm = list(range(k))
     if rng.random() < 0.6:
         rng.shuffle(perm)
-    b = a.pbd(items, perm=perm, name_order=rng.shuffle if rng.random() < 0.5 else None)
+    # in half of the files the records are not aligned: each follows the previous one's names after 0..3 bytes
+    sl = [rng.randrange(4) for _ in items]
+    b = a.pbd(items, perm=perm, name_order=rng.shuffle if rng.random() < 0.5 else None, slack=(lambda i: sl[i]) if rng.random() < 0.5 else None)
     pairs = [(x, y) for x in ids for y in ids]
     if len(pairs) > 40:
         pairs = rng.sample(pairs, 40)
